@@ -345,6 +345,11 @@ def c13():
                 continue
             for L in (1, 53, 1000):
                 cyc.append("sweep_dec %d %d %d %d %d %d %d %d %d %d %d %d" % (be, k, m, hd, w, 2, L, _seed_of(chk, w * 31 + L), 0, 2, 6, 1 | 8 | 16))
+    # ... and whatever checksum type value the caller passed (1 = none and 2 = CRC32 are the two the properties speak of;
+    # any other value that create accepts must still give a usable instance)
+    for be, (k, m, hd) in ((BE_RS, (4, 2, 2)), (BE_XOR, (5, 5, 3)), (BE_ISAL_VAND, (4, 2, 2))):
+        for ct_ in (0, 3, 4, 7, 255, -1):
+            cyc.append("sweep_dec %d %d %d %d %d %d %d %d %d %d %d %d" % (be, k, m, hd, WORD[be], ct_, 77, _seed_of(chk, 3000 + ct_), 0, 2, 6, 1 | 8 | 16))
     fc, ec, rcn = run_sweeps("asan", cyc, "C13-cycle")
     vc = validate("TraceCodes", fc)
     _collect(chk, vc, ["C13", "C01", "C02", "C03", "fault"])
